@@ -113,35 +113,35 @@ section
 variable {α : Type}
 
 theorem wf_ctorFull [One α] [Div α] [NatCast α] (kind : Kind) (k l c : Nat) (q : Bool)
-    (hk : 1 ≤ k) (hg : kind = Kind.gaussian → k = 1) (init : Option α := none) :
+    (hg : kind = Kind.gaussian → k = 1) (init : Option α := none) :
     WF (ctorFull kind k l c q init : Container α) := by
   cases q <;> constructor <;> simp [ctorFull] <;> first | omega | (intro h; simp [h])
 
 theorem wf_ctorDefault [One α] [Div α] [NatCast α] (kind : Kind) (init : Option α := none) :
     WF (ctorDefault kind init : Container α) :=
-  wf_ctorFull kind 1 1 0 false (Nat.le_refl 1) (fun _ => rfl) init
+  wf_ctorFull kind 1 1 0 false (fun _ => rfl) init
 
-theorem wf_ctorDim [One α] [Div α] [NatCast α] (kind : Kind) (k d : Nat) (hk : 1 ≤ k) (init : Option α := none) :
+theorem wf_ctorDim [One α] [Div α] [NatCast α] (kind : Kind) (k d : Nat) (init : Option α := none) :
     WF (ctorDim kind k d init : Container α) := by
   cases kind <;> simp only [ctorDim]
-  · exact wf_ctorFull _ k d 0 false hk (fun h => by cases h) init
-  · exact wf_ctorFull _ 1 d 0 false (Nat.le_refl 1) (fun _ => rfl) init
-  · exact wf_ctorFull _ k d 0 false hk (fun h => by cases h) init
+  · exact wf_ctorFull _ k d 0 false (fun h => by cases h) init
+  · exact wf_ctorFull _ 1 d 0 false (fun _ => rfl) init
+  · exact wf_ctorFull _ k d 0 false (fun h => by cases h) init
 
-theorem wf_ctorLayout [One α] [Div α] [NatCast α] (kind : Kind) (k l c : Nat) (q : Bool) (hk : 1 ≤ k)
+theorem wf_ctorLayout [One α] [Div α] [NatCast α] (kind : Kind) (k l c : Nat) (q : Bool)
     (init : Option α := none) : WF (ctorLayout kind k l c q init : Container α) := by
   cases kind <;> simp only [ctorLayout]
-  · exact wf_ctorFull _ k l c q hk (fun h => by cases h) init
-  · exact wf_ctorFull _ 1 l c q (Nat.le_refl 1) (fun _ => rfl) init
-  · exact wf_ctorFull _ k l c q hk (fun h => by cases h) init
+  · exact wf_ctorFull _ k l c q (fun h => by cases h) init
+  · exact wf_ctorFull _ 1 l c q (fun _ => rfl) init
+  · exact wf_ctorFull _ k l c q (fun h => by cases h) init
 
 /-- `GaussianMixture::resize` keeps a mixture or Gaussian well-formed (for a `Gaussian` only when
     the requested component count is 1, which is what `Gaussian::resize` passes). -/
-theorem wf_gmResize (x : Container α) (h : WF x) (k l c : Nat) (hk : 1 ≤ k)
+theorem wf_gmResize (x : Container α) (h : WF x) (k l c : Nat)
     (hnps : x.kind ≠ Kind.ps) (hg : x.kind = Kind.gaussian → k = 1) : WF (gmResize x k l c) := by
   obtain ⟨kind, comps, q, dcc, dim, dl, dci, dn, dcv, mean, cov, weight, state⟩ := x
-  obtain ⟨hpos, hdcc, hdim, hdcov, hmr, hmc, hcr, hcc, hwr, hwc, hsr, hsc, hga⟩ := h
-  simp only at hpos hdcc hdim hdcov hmr hmc hcr hcc hwr hwc hsr hsc hga hg hnps
+  obtain ⟨hdcc, hdim, hdcov, hmr, hmc, hcr, hcc, hwr, hwc, hsr, hsc, hga⟩ := h
+  simp only at hdcc hdim hdcov hmr hmc hcr hcc hwr hwc hsr hsc hga hg hnps
   cases q <;> simp only [if_true, if_false, Bool.false_eq_true] at hdcc hdim hdcov <;> subst hdcc <;>
   simp only [gmResize, if_true, if_false, Bool.false_eq_true] <;>
   split_ifs with h1 h2 <;>
@@ -155,11 +155,11 @@ theorem wf_gmResize (x : Container α) (h : WF x) (k l c : Nat) (hk : 1 ≤ k)
     | (intro hk'; exact absurd hk' hnps)
 
 /-- `ParticleSet::resize` keeps a particle set well-formed. -/
-theorem wf_psResize (x : Container α) (h : WF x) (k l c : Nat) (hk : 1 ≤ k)
+theorem wf_psResize (x : Container α) (h : WF x) (k l c : Nat)
     (hps : x.kind = Kind.ps) : WF (psResize x k l c) := by
   obtain ⟨kind, comps, q, dcc, dim, dl, dci, dn, dcv, mean, cov, weight, state⟩ := x
-  obtain ⟨hpos, hdcc, hdim, hdcov, hmr, hmc, hcr, hcc, hwr, hwc, hsr, hsc, hga⟩ := h
-  simp only at hpos hdcc hdim hdcov hmr hmc hcr hcc hwr hwc hsr hsc hga hps
+  obtain ⟨hdcc, hdim, hdcov, hmr, hmc, hcr, hcc, hwr, hwc, hsr, hsc, hga⟩ := h
+  simp only at hdcc hdim hdcov hmr hmc hcr hcc hwr hwc hsr hsc hga hps
   subst hps
   have hsr' := hsr rfl
   have hsc' := hsc rfl
@@ -180,15 +180,15 @@ theorem wf_psResize (x : Container α) (h : WF x) (k l c : Nat) (hk : 1 ≤ k)
 /-- `Gaussian::resize`. -/
 theorem wf_gaussianResize (x : Container α) (h : WF x) (l c : Nat) (hga : x.kind = Kind.gaussian) :
     WF (gaussianResize x l c) :=
-  wf_gmResize x h 1 l c (Nat.le_refl 1) (by rw [hga]; decide) (fun _ => rfl)
+  wf_gmResize x h 1 l c (by rw [hga]; decide) (fun _ => rfl)
 
 /-- The virtual `resize` of a mixture or particle set. -/
-theorem wf_resize (x : Container α) (h : WF x) (k l c : Nat) (hk : 1 ≤ k) (hng : x.kind ≠ Kind.gaussian) :
+theorem wf_resize (x : Container α) (h : WF x) (k l c : Nat) (hng : x.kind ≠ Kind.gaussian) :
     WF (resize x k l c) := by
   unfold resize
   split
-  · next hps => exact wf_psResize x h k l c hk hps
-  · next hnps => exact wf_gmResize x h k l c hk hnps (fun hg => absurd hg hng)
+  · next hps => exact wf_psResize x h k l c hps
+  · next hnps => exact wf_gmResize x h k l c hnps (fun hg => absurd hg hng)
 
 /-! ### `augmentWithNoise` -/
 
@@ -217,10 +217,16 @@ def augmented [Zero α] (x : Container α) (a : Nat) (q : Nat → Nat → Option
 /-- The mean storage with the rows for the noise appended (before they are zeroed). -/
 def augMean1 (x : Container α) (a : Nat) : Sto α := x.mean.conservativeResize (x.dim + a) x.mean.cols
 
-/-- A square noise covariance on a container whose mean storage has `components` columns:
-    no assertion, returns `true`. -/
+/-- On a container with 0 components a square noise covariance trips the assertion (`components - 1`
+    wraps around). -/
+theorem augmentO_zero_components [Zero α] (x : Container α) (a : Nat) (q : Nat → Nat → Option α)
+    (h0 : x.components = 0) : augmentO x a a q = none := by
+  simp [augmentO, h0]
+
+/-- A square noise covariance on a container with at least one component whose mean storage has
+    `components` columns: no assertion, returns `true`. -/
 theorem augmentO_square [Zero α] (x : Container α) (a : Nat) (q : Nat → Nat → Option α)
-    (hmc : x.mean.cols = x.components) :
+    (hmc : x.mean.cols = x.components) (hk : x.components ≠ 0) :
     ∃ mean2, (augMean1 x a).assignBlock (x.dim + a - a) 0 a (augMean1 x a).cols (Sto.const a x.components 0)
         = some mean2 ∧
       augmentO x a a q = some (augmented x a q mean2, true) := by
@@ -228,7 +234,7 @@ theorem augmentO_square [Zero α] (x : Container α) (a : Nat) (q : Nat → Nat 
     (augMean1 x a).cols (by simp [augMean1, hmc])
   refine ⟨m2, hm2, ?_⟩
   simp only [augMean1] at hm2
-  simp only [augmentO, ne_eq, not_true_eq_false, if_false, hm2, augmented]
+  simp only [augmentO, ne_eq, not_true_eq_false, if_false, hk, hm2, augmented]
 
 /-- If the mean storage does not have `components` columns the zero assignment asserts. -/
 theorem augmentO_asserts [Zero α] (x : Container α) (a : Nat) (q : Nat → Nat → Option α)
@@ -239,14 +245,14 @@ theorem augmentO_asserts [Zero α] (x : Container α) (a : Nat) (q : Nat → Nat
     simp only [augMean1, Sto.conservativeResize_cols, Sto.const_cols]
     omega
   simp only [augMean1] at this
-  simp only [augmentO, ne_eq, not_true_eq_false, if_false, this]
+  simp only [augmentO, ne_eq, not_true_eq_false, if_false, this, ite_self]
 
 theorem wf_augmented [Zero α] (x : Container α) (h : WF x) (a : Nat) (q : Nat → Nat → Option α) (mean2 : Sto α)
     (hm : mean2.rows = x.dim + a ∧ mean2.cols = x.components) : WF (augmented x a q mean2) := by
   obtain ⟨kind, comps, qq, dcc, dim, dl, dci, dn, dcv, mean, cov, weight, state⟩ := x
-  obtain ⟨hpos, hdcc, hdim, hdcov, hmr, hmc, hcr, hcc, hwr, hwc, hsr, hsc, hga⟩ := h
+  obtain ⟨hdcc, hdim, hdcov, hmr, hmc, hcr, hcc, hwr, hwc, hsr, hsc, hga⟩ := h
   obtain ⟨hm1, hm2⟩ := hm
-  simp only at hpos hdcc hdim hdcov hmr hmc hcr hcc hwr hwc hsr hsc hga hm1 hm2
+  simp only at hdcc hdim hdcov hmr hmc hcr hcc hwr hwc hsr hsc hga hm1 hm2
   cases qq <;> simp only [if_true, if_false, Bool.false_eq_true] at hdcc hdim hdcov <;>
   constructor <;> simp only [augmented, Sto.build_rows, Sto.build_cols, if_true, if_false, Bool.false_eq_true] <;>
   first
@@ -259,7 +265,10 @@ theorem wf_augmentO [Zero α] (x : Container α) (h : WF x) (qr qc : Nat) (q : N
     (y : Container α) (b : Bool) (hy : augmentO x qr qc q = some (y, b)) : WF y := by
   by_cases hsq : qr = qc
   · subst hsq
-    obtain ⟨m2, hm2, he⟩ := augmentO_square x qr q h.meanCols
+    by_cases hk : x.components = 0
+    · rw [augmentO_zero_components x qr q hk] at hy
+      cases hy
+    obtain ⟨m2, hm2, he⟩ := augmentO_square x qr q h.meanCols hk
     rw [he] at hy
     cases hy
     have hd := Sto.assignBlock_dims hm2
